@@ -1,6 +1,8 @@
 package verifsim
 
 import (
+	"github.com/mimiro-io/datahub/internal/server"
+	"bytes"
 	"encoding/json"
 	"fmt"
 	"io"
@@ -45,6 +47,25 @@ func (b *yieldingBody) Read(p []byte) (int, error) {
 }
 
 func genC05h(g *G, sc *Scenario, tier string) {
+	if g.P(0.02) {
+		// a listing of more than a thousand entities read in one request while another client updates the first and the
+		// last entity of the dataset in one batch: the page shows both updates or neither
+		sc.Datasets = []string{"big"}
+		sc.Knobs["bigPage"] = 1100
+		sc.Knobs["web.batchSize"] = 10
+		sc.Tasks = [][]Op{
+			{{K: "listAll", DS: "big"}},
+			{{K: "payload", DS: "big", N: 0, Limit: 100000, Ents: []Ent{
+				{"id": MkE + "b0000", "props": map[string]any{MkS + "v": "2"}, "refs": map[string]any{}},
+				{"id": MkE + "b1099", "props": map[string]any{MkS + "v": "2"}, "refs": map[string]any{}}}}},
+		}
+		if g.P(0.5) {
+			sc.Tasks = append(sc.Tasks, []Op{{K: "listAll", DS: "big"}})
+		}
+		sc.Knobs["schedSeed"] = int64(g.r.Uint64() >> 1)
+		sc.Knobs["preemptPct"] = int64(g.PickInt([]int{50, 80}))
+		return
+	}
 	nds := g.Range(1, 2)
 	sc.Datasets = []string{"dsA", "dsB"}[:nds]
 	pool := poolNames(MkE, "e", g.Range(2, 4))
@@ -125,6 +146,17 @@ func RunC05hScenario(sc *Scenario) (vd *Verdict) {
 		}
 		m.Create(d)
 	}
+	if n := int(sc.Knob("bigPage", 0)); n > 0 {
+		var ents []Ent
+		for k := 0; k < n; k++ {
+			ents = append(ents, Ent{"id": fmt.Sprintf("%sb%04d", MkE, k), "props": map[string]any{MkS + "v": "1"}, "refs": map[string]any{}})
+		}
+		if err := h.Dataset("big").StoreEntities(h.Entities(ents)); err != nil {
+			vd.Verdict, vd.Message = "error", err.Error()
+			return
+		}
+		m.Batch("big", ents)
+	}
 	type hreq struct {
 		op        *Op
 		task, idx int
@@ -174,6 +206,7 @@ func RunC05hScenario(sc *Scenario) (vd *Verdict) {
 		}
 	}
 	hooks.sched = s
+	var pageViolation *Violation
 	var all []*hreq
 	for ti := range sc.Tasks {
 		var rs []*hreq
@@ -185,6 +218,34 @@ func RunC05hScenario(sc *Scenario) (vd *Verdict) {
 		tk = s.Spawn(fmt.Sprintf("T%d", ti), h.Store.VerifDB(), func() {
 			for _, rq := range rs {
 				op := rq.op
+				if op.K == "listAll" {
+					tk.Cur = rq
+					code, body := h.Do("GET", "/datasets/"+op.DS+"/entities", nil, nil)
+					rq.code, rq.done = code, true
+					tk.Cur = nil
+					stats["listings"]++
+					if code == 200 {
+						first, last, n := "", "", 0
+						_ = server.NewEntityStreamParser(h.Store).ParseStream(bytes.NewReader(body), func(e *server.Entity) error {
+							if e.ID == "@continuation" {
+								return nil
+							}
+							n++
+							c := h.Canon(e)
+							if strings.HasSuffix(c.ID, "b0000") {
+								first = fmt.Sprint(c.Props[ExS+"v"])
+							}
+							if strings.HasSuffix(c.ID, "b1099") {
+								last = fmt.Sprint(c.Props[ExS+"v"])
+							}
+							return nil
+						})
+						if first != last && pageViolation == nil {
+							pageViolation = viol("C05", "atomic-read", "listing-page-shows-part-of-a-batch", "one GET of the entities of a dataset of %d entities shows entity b0000 with v=%s and entity b1099 with v=%s; another client updated both in one batch while the page was read", n, first, last)
+						}
+					}
+					continue
+				}
 				var b []byte
 				path := "/datasets/" + op.DS + "/entities"
 				if op.K == "txn" {
@@ -229,7 +290,14 @@ func RunC05hScenario(sc *Scenario) (vd *Verdict) {
 		return
 	}
 	bs := int(sc.Knob("web.batchSize", 10))
+	if pageViolation != nil {
+		fail(pageViolation)
+		return
+	}
 	for _, rq := range all {
+		if rq.op.K == "listAll" {
+			continue
+		}
 		if !rq.done {
 			fail(viol("C05", "hang", "unfinished-request", "request %d of client %d never returned", rq.idx, rq.task))
 			return
@@ -262,7 +330,11 @@ func RunC05hScenario(sc *Scenario) (vd *Verdict) {
 	}
 	pool, _ := collectNames(sc)
 	for _, d := range sc.Datasets {
-		if v := CheckLatest(h, m, d, pool, []int{2}); v != nil {
+		pages := []int{2}
+		if sc.Knob("bigPage", 0) > 0 {
+			pages = []int{500}
+		}
+		if v := CheckLatest(h, m, d, pool, pages); v != nil {
 			v.Property, v.Oracle, v.Signature = "C05", "serial", "http:final-latest:"+v.Signature
 			v.Message = "after concurrent uploads (each under its own namespace context): " + v.Message
 			fail(v)
